@@ -422,6 +422,20 @@ impl ZchState {
                 if self.zchd.zchd_is_altgr_active && !a.zch_output.is_empty() {
                     kb.release_key(OsCode::KEY_RIGHTALT)?;
                 }
+                if common_prefix_len_from_past_activation > 0
+                    && !self.zchd.zchd_is_caps_word_active
+                    && (common_prefix_len_from_past_activation as usize) < a.zch_output.len()
+                {
+                    // The first character of the output is already on screen;
+                    // a held shift must not capitalize a later one.
+                    released_sft = true;
+                    if self.zchd.zchd_is_lsft_active {
+                        kb.release_key(OsCode::KEY_LEFTSHIFT)?;
+                    }
+                    if self.zchd.zchd_is_rsft_active {
+                        kb.release_key(OsCode::KEY_RIGHTSHIFT)?;
+                    }
+                }
                 for key_to_send in a
                     .zch_output
                     .iter()
